@@ -907,6 +907,41 @@ func ruleSettingsPresence(p *Prog, r *Out) {
 			return true
 		})
 	}
+	// a received value reaches live state unconditionally or under its presence
+	// marker, never under a condition on the value itself
+	for _, fnn := range []string{"(*serverConn).handleSettings", "(*Conn).handleSettings"} {
+		fd := p.decl(fnn)
+		if fd == nil {
+			continue
+		}
+		pm := p.pmFor(fd)
+		inspectCalls(fd.Body, func(c *ast.CallExpr) {
+			name := p.calleeOf(c)
+			target := ""
+			switch {
+			case strings.HasPrefix(name, "atomic.Store") && len(c.Args) == 2:
+				target = strings.TrimPrefix(p.text(c.Args[0]), "&")
+			case name == "(*HPACK).SetMaxTableSize":
+				target = "encoder table size"
+			case name == "(*Conn).applyInitialWindow":
+				target = "initial window"
+			default:
+				return
+			}
+			bad := ""
+			for _, g := range p.enclosingGuards(pm, c) {
+				t := p.text(g.Cond)
+				if sel, ok := g.Cond.(*ast.SelectorExpr); ok {
+					if _, f, ok := p.fieldOf(sel); ok && strings.HasPrefix(f, "has") {
+						continue
+					}
+				}
+				bad = t
+			}
+			r.check(bad == "", fnn+" stores "+target+" without a value condition", p.pos(c.Pos()), "unconditional, or under the parameter's presence marker only",
+				fmt.Sprintf("%s applies the received %s only under the condition `%s`: a condition on the value itself cannot tell 'absent' from 'explicitly set to that value' (the frame object is reset to defaults before parsing), so a SETTINGS frame that sets the parameter back to exactly that value is acknowledged but never applied", fnn, target, bad))
+		})
+	}
 	seen := map[string]bool{}
 	for _, s := range sites {
 		key := s.fn + " applies " + s.field
